@@ -36,7 +36,7 @@ def one(name):
 
 def main():
     names = sys.argv[1:] or sorted(n for n in os.listdir(os.path.join(VERIF, "seeded")) if os.path.isfile(os.path.join(VERIF, "seeded", n, "meta.json")))
-    with ThreadPoolExecutor(max_workers=4) as ex:
+    with ThreadPoolExecutor(max_workers=10) as ex:
         for name, out in ex.map(one, names):
             mp = os.path.join(VERIF, "seeded", name, "meta.json")
             meta = json.load(open(mp))
